@@ -851,10 +851,10 @@ def confusion_matrix(obs, sim, ncat=None):
     # First pass using pandas
     cm = pd.crosstab(obs, sim)
 
-    # Infer number of categories
+    # Infer number of categories (categories are 0, 1, .., ncat-1)
     if ncat is None:
         cats = np.concatenate([cm.index.values, cm.columns.values])
-        ncat = len(np.unique(cats))
+        ncat = int(np.max(cats, initial=-1)) + 1
 
     # Add missing rows and columns
     if cm.shape != (ncat, ncat):
